@@ -188,17 +188,15 @@ Fixpoint subseqb (a b : list nat) : bool :=
 Fixpoint dead_payloads (l : list mevent) : list nat :=
   match l with [] => [] | MDeadUser n :: l' => n :: dead_payloads l' | _ :: l' => dead_payloads l' end.
 
-(* C05 (with C01/C09): what is delivered is delivered in send order; unless the
-   restart budget was exceeded (the rest of the restart buffer is dropped with
-   the actor) every message sent is either delivered or reported as a dead
-   letter — none is lost silently and none is counted twice *)
+(* C05 (with C01/C09): what is delivered is delivered in send order; every
+   message sent is either delivered or reported as a dead letter — none is
+   lost silently and none is counted twice *)
 Definition oracle_c05 (c : case) : bool :=
   let o := c_obs c in
   negb (o_escaped o) && negb (o_hang o) &&
   subseqb (user_payloads (o_recvs o)) (o_sends o) &&
-  (existsb (fun e => mevent_eqb e MMaxRestarts) (o_events o) ||
-   (Nat.eqb (length (user_payloads (o_recvs o)) + length (dead_payloads (o_events o))) (length (o_sends o)) &&
-    forallb (fun n => existsb (Nat.eqb n) (user_payloads (o_recvs o)) || existsb (Nat.eqb n) (dead_payloads (o_events o))) (o_sends o))) &&
+  Nat.eqb (length (user_payloads (o_recvs o)) + length (dead_payloads (o_events o))) (length (o_sends o)) &&
+  forallb (fun n => existsb (Nat.eqb n) (user_payloads (o_recvs o)) || existsb (Nat.eqb n) (dead_payloads (o_events o))) (o_sends o) &&
   all2 Nat.eqb (restarted_counters (o_events o)) (seq 1 (length (restarted_counters (o_events o)))) &&
   panic_then_stopped (c_table c) (o_recvs o) &&
   nodupb (user_payloads (o_recvs o)).
